@@ -95,7 +95,19 @@ def pair_potentials_api(model, wrap=None):
       if wrap is not None:
         f = wrap(f, (a, b))
       shared[key] = f
-    pots.append(Potential(a, b, f))
+    if model.get("api_variant") == "energy_override":
+      # the documented interface of a potential is speciesA, speciesB, energy(r), force(r): a subclass that overrides
+      # energy() (its constructor argument is a decoy) must be tabulated through energy()
+      class EnergyOverride(Potential):
+        def __init__(self, a_, b_, real):
+          Potential.__init__(self, a_, b_, lambda r: 12345.0)
+          self._real = real
+
+        def energy(self, r):
+          return self._real(r)
+      pots.append(EnergyOverride(a, b, f))
+    else:
+      pots.append(Potential(a, b, f))
   return pots
 
 
